@@ -22,8 +22,10 @@ def main(tier, only=None):
            "over {x,y,##,a} with two inner non-adjacent ##" if tier != "quick" else ", every `P ## Q` with P,Q in {x,y,a,',',#}"),
     ]
     chk.assumptions += [
-        "bodies are enumerated shapes (lib/c09shapes.py); inside one cbmc run a batch of 16 shapes is explored case by "
-        "case with argument emptiness symbolic",
+        "bodies are enumerated shapes (lib/c09shapes.py); IN.shape / IN.xempty / IN.yempty are symbolic, but one cbmc "
+        "run explores its batch of 16 shapes x 4 emptiness combinations case by case with concrete data inside each "
+        "case (a symbolic body or symbolic emptiness on 5-6 token bodies does not finish: cbmc's pointer reasoning over "
+        "the copied token lists)",
         "subst harness: paste()/stringize() cut to spelling-level equivalents (one token l.r / one string literal), "
         "find_arg() cut to the same contract on the packed spelling, argument pre-expansion (preprocess2) cut to the "
         "identity (asserted: arguments contain no macro); pastes that do not form one valid token (C11: undefined) "
@@ -34,6 +36,8 @@ def main(tier, only=None):
         "ATTEMPTED, NOT FINISHING (dropped, nothing claimed): a fully symbolic macro body for subst(); termination / "
         "complete rescanning of <= 3 mutually referential object-like macros through the real expand_macro/preprocess2 "
         "(harness h_terminate is kept in harness/c09/macro.c; even 3 one-token macros exceed 200 s in cbmc 6.11 symex)",
+        "whether ill-formed replacement lists (`#` not followed by a parameter, `##` at an end) are diagnosed — e.g. "
+        "`x ## #` is accepted silently (gcc rejects it): constraint violation, no token sequence prescribed",
         "function-like rescanning across the invocation boundary, variadic forms (__VA_ARGS__, __VA_OPT__, `, ##`), "
         "read_macro_args, stringification text (quote_string/join_tokens), arguments of more than one token",
     ]
@@ -45,7 +49,7 @@ def main(tier, only=None):
             lo = j * c09shapes.BATCH
             sample = " | ".join(" ".join(SYM[t] for t in b) for b in shapes[lo:lo + 3])
             hs.append(e1.H("h_sb_%d" % j, "subst/batch-%03d" % j, unwind=10, object_bits=12, timeout=900,
-                           unwindset=("run_batch.0:17", "run_batch.1:17", "run_batch.2:17"),
+                           unwindset=("run_batch.0:17", "run_batch.1:17", "run_batch.2:17", "run_batch.3:17"),
                            replace_calls=SUBST_CUTS, defines=("HK_subst",),
                            desc="shapes %d..%d e.g. %s" % (lo, min(lo + 15, len(shapes) - 1), sample)))
         e1.run_set(chk, "c09/macro.c", hs, workers=8)
